@@ -29,6 +29,9 @@ def one(job):
     colt = None if col is None else ''.join(n + '\n' for n in col)
     rowt = None if row is None else ''.join(n + '\n' for n in row)
     gfile = os.path.join(wd, 'g.jsonl')
+    # the export path already holds the output of an earlier run: it must be replaced, not continued
+    os.makedirs(wd, exist_ok=True)
+    with open(gfile, 'w') as f: f.write('{"stale": "record of an earlier run"}\nLEFT OVER FROM AN EARLIER RUN, NOT JSON\n')
     run = vdriverlib.run(binary, wd, nl_text=m.nl(), script={'acc': c19.ACC[accname], 'code': 0},
                          env_opts={'vdriver_options': 'cvt:names=%d cvt:writegraph=%s' % (mode, gfile)}, col=colt, row=rowt)
     out = []; cls = set()
@@ -74,6 +77,13 @@ def main(tier, seed):
                 for (label, col, row) in name_sets(m):
                     if mode == 0 and label != 'absent': continue
                     jobs.append((binary, len(jobs), fam, name, m, accname, mode, label, col, row))
+    # one long model: 100 consecutive constraints abs(x_i) + x_{i+1} <= 3, each reformulated into several rows by the same
+    # link object (more than 256 link entries in a row)
+    from nlmodel import Model, INF
+    chain = Model([(-2.0, 2.0, False, 1.0)] * 101, acons=[(('abs', ('v', i)), {i + 1: 1.0}, -INF, 3.0) for i in range(100)],
+                  obj=('min', None, {0: 1.0}))
+    for accname in ('mip', 'all'):
+        jobs.append((binary, len(jobs), 'chain', 'chain of 100 abs constraints', chain, accname, 0, 'absent', None, None))
     classes = set(); n = 0; nrec = 0
     with ThreadPoolExecutor(max_workers=vcheck.NCPU) as ex:
         for out, cls, ident, k in ex.map(one, jobs):
@@ -88,8 +98,9 @@ def main(tier, seed):
     chk.set('rule', 'driver runs with cvt:writegraph over the C19 model set x acceptance configs x cvt:names {0,2} x name alphabets {absent, plain, '
             'quotes, backslashes, TAB/control/UTF-8}; strict JSON parse of every line, completeness of NL and delivered items, exactly one '
             'creation and one final-status record per stored constraint with consistent flags, link references inside item classes, '
-            'final==1 records equal the AddConstraint calls recorded by RecAPI. A class = (config, names mode, alphabet, parse result, links present).')
-    chk.assumptions += ['the k-th delivered constraint of a type corresponds to the k-th final==1 record of that type (push order)']
+            'final==1 records equal the AddConstraint calls recorded by RecAPI; every NL constraint is the source of at least one link record; the export path holds stale content of an earlier run before every run (it must be replaced); one chain model with 100 consecutive reformulated constraints (> 256 link entries of one link object in a row). A class = (config, names mode, alphabet, parse result, links present).')
+    chk.assumptions += ['the rule "every NL constraint starts a link" goes beyond the letter of the statement (which asks that every item appears and links refer to existing items); it holds on every model and configuration of the set and is what makes a silently truncated link export visible',
+                        'the k-th delivered constraint of a type corresponds to the k-th final==1 record of that type (push order)']
     if nrec < 1000: chk.broken.append('vacuous: almost no graph records parsed')
     shutil.rmtree(WORK, ignore_errors=True)
     return chk.finish()
